@@ -234,6 +234,31 @@ def run(ctx):
             except Exception as e:
                 ctx.notes.append(f'in-place re-call of {name} not evaluated: {e!r}'[:160])
         ctx.count(('mut', name), True)
+    import solver as _S
+    # boundary sizes take their own shortcuts: the same two checks (argument untouched, repeat = first answer) on 1x1 and 2x2 inputs
+    for nsz in (1, 2):
+        Ss = Qm(nsz, nsz); Hs = Ss + np.transpose(np.conjugate(Ss)); bs_ = Qm(nsz, 1)
+        small = [('quaternion_schur', lambda X: schur.quaternion_schur(X, max_iter=6)), ('quaternion_schur_pure', lambda X: schur.quaternion_schur_pure(X, max_iter=6)),
+                 ('quaternion_schur_pure_implicit', lambda X: schur.quaternion_schur_pure_implicit(X, max_iter=6)), ('quaternion_schur_experimental', lambda X: schur.quaternion_schur_experimental(X, max_iter=6)),
+                 ('quaternion_schur_experimental[francis_ds]', lambda X: schur.quaternion_schur_experimental(X, variant='francis_ds', max_iter=6)), ('hessenbergize', lambda X: hessenberg.hessenbergize(X)),
+                 ('quaternion_lu', lambda X: LU.quaternion_lu(X, return_p=True)), ('qr_qua', lambda X: qsvd.qr_qua(X)), ('classical_qsvd_full', lambda X: qsvd.classical_qsvd_full(X)),
+                 ('classical_qsvd', lambda X: qsvd.classical_qsvd(X, 1)), ('rank', lambda X: utils.rank(X)), ('det', lambda X: utils.det(X, 'Dieudonne')), ('quat_null_space', lambda X: utils.quat_null_space(X)),
+                 ('matrix_norm(2)', lambda X: utils.matrix_norm(X, 2)), ('power_iteration', lambda X: utils.power_iteration(X, max_iterations=4, return_eigenvalue=True)),
+                 ('NewtonSchulzPseudoinverse', lambda X: _S.NewtonSchulzPseudoinverse(max_iter=3).compute(X)[0]), ('QGMRESSolver', lambda X: _S.QGMRESSolver(tol=1e-10).solve(X + 9 * np.eye(nsz), bs_)[0])]
+        small += [(f'quaternion_schur_unified[{v}]', lambda X, v=v: schur.quaternion_schur_unified(X, variant=v, max_iter=6)) for v in ('none', 'rayleigh', 'implicit', 'aed', 'ds')]
+        hsmall = [('quaternion_eigendecomposition', lambda X: eigen.quaternion_eigendecomposition(X)), ('det(Moore)', lambda X: utils.det(X, 'Moore'))] + ([('tridiagonalize', lambda X: tri.tridiagonalize(X))] if nsz >= 2 else [])
+        for group, base in ((small, Ss), (hsmall, Hs)):
+            for name, f in group:
+                X = base.copy(); before = digest(X)
+                try:
+                    np.random.seed(5)
+                    with contextlib.redirect_stdout(io.StringIO()): r1 = digest(f(X))
+                    if digest(X) != before: viol(f'C14:{name}:mutates-argument:{nsz}x{nsz}', f'{name} modified its {nsz}x{nsz} argument', {'function': name, 'n': nsz}); X = base.copy()
+                    np.random.seed(5)
+                    with contextlib.redirect_stdout(io.StringIO()): r2 = digest(f(X))
+                    if r1 != r2: viol(f'C14:{name}:not-repeatable:{nsz}x{nsz}', f'{name} returns different bits when the call is repeated on a {nsz}x{nsz} input', {'function': name, 'n': nsz})
+                except Exception as e: viol(f'C14:{name}:raises:{nsz}x{nsz}', f'{name} raised {e!r} on a {nsz}x{nsz} input', {'function': name, 'n': nsz})
+                ctx.count(('small', name, nsz), True)
     # reporting options must not change the answer: every entry point with a `verbose` flag, silent vs verbose (output discarded)
     def _vb(label, call_quiet, call_verbose):
         try:
@@ -253,7 +278,9 @@ def run(ctx):
                       ('quaternion_schur', lambda v: schur.quaternion_schur(S, max_iter=5, verbose=v)), ('quaternion_schur_pure', lambda v: schur.quaternion_schur_pure(S, max_iter=5, verbose=v)),
                       ('quaternion_schur_pure_implicit', lambda v: schur.quaternion_schur_pure_implicit(S, max_iter=5, verbose=v)), ('quaternion_schur_unified[aed]', lambda v: schur.quaternion_schur_unified(S, variant='aed', max_iter=5, verbose=v)),
                       ('quaternion_schur_experimental', lambda v: schur.quaternion_schur_experimental(S, max_iter=5, verbose=v)),
-                      ('power_iteration', lambda v: utils.power_iteration(Hm, max_iterations=6, return_eigenvalue=True, verbose=v))):
+                      ('power_iteration', lambda v: utils.power_iteration(Hm, max_iterations=6, return_eigenvalue=True, verbose=v)),
+                      ('quaternion_eigendecomposition', lambda v: eigen.quaternion_eigendecomposition(Hm, verbose=v)), ('quaternion_eigenvalues', lambda v: eigen.quaternion_eigenvalues(Hm, verbose=v)),
+                      ('quaternion_eigenvectors', lambda v: eigen.quaternion_eigenvectors(Hm, verbose=v))):
         _vb(_lab, lambda _mk=_mk: _mk(False), lambda _mk=_mk: _mk(True))
     ctx.cov['documented_in_place'] = documented_inplace
     # both import styles in fresh interpreters
